@@ -95,7 +95,10 @@
 //! strip = "debuginfo"
 //! ```
 
+#[cfg(not(prqlc_verif))]
 use std::sync::OnceLock;
+#[cfg(prqlc_verif)]
+use crate::verif_sync::OnceLock;
 #[cfg(not(prqlc_verif))]
 use std::{collections::HashMap, path::PathBuf, str::FromStr};
 #[cfg(prqlc_verif)]
@@ -123,6 +126,8 @@ pub mod semantic;
 pub mod sql;
 #[cfg(feature = "cli")]
 pub mod utils;
+#[cfg(prqlc_verif)]
+pub mod verif_sync;
 #[cfg(not(feature = "cli"))]
 pub(crate) mod utils;
 
